@@ -119,8 +119,9 @@ CopyOps  == {"copy_default", "copy_deep", "deepcopy"}
 BrokenOps == {"broken_shorten_grid", "broken_reverse_grid"}
 
 \* uxarray's own operators are documented on the last axis
-LastAxisOps == TopoOps \cup EdgeOps \cup RemapOps \cup {"integrate"}
-OwnOps      == LastAxisOps \cup DualOps \cup SubsetOps
+\* (integrate, gradient and difference work along the grid dimension wherever it is: prescribed in every position)
+LastAxisOps == TopoOps \cup RemapOps
+OwnOps      == LastAxisOps \cup EdgeOps \cup {"integrate"} \cup DualOps \cup SubsetOps
 NumericOwn  == TopoOps \cup EdgeOps \cup {"integrate", "remap_idw_face", "remap_idw_node"}
 NoDimOps == ElemOps \cup ToBoolOps \cup ToFloatOps \cup RenameOps \cup ElemGridOps \cup PermuteOps
             \cup AddOps \cup DropGridOps \cup TopoOps \cup EdgeOps \cup RemapOps \cup DualOps
